@@ -978,7 +978,7 @@ def replay_witnesses(ctx):
 def run(ctx):
     rng = ctx.rng
     sys.setrecursionlimit(10000)
-    n_full = 160 if ctx.thorough else 28
+    n_full = 160 if ctx.thorough else 18
     n_grid = 60 if ctx.thorough else 5
     n_rand = 1500 if ctx.thorough else 180
     replay_witnesses(ctx)
@@ -994,7 +994,7 @@ def run(ctx):
     full = list(FIXED_PAIRS) + [(a, b) for a, b, _k in gen[:n_full]]
     # inputs with ==-aliasing atoms: only the memo-threading model describes them
     alias_full = [(a, b) for a, b in FIXED_FINDINGS if V.contains_alias(a, b)] + list(ALIAS_FIXED)
-    while len(alias_full) < (60 if ctx.thorough else 14):
+    while len(alias_full) < (60 if ctx.thorough else 12):
         a, b, _k = gen_pair(rng, alias=True, depth=rng.choice([2, 3]))
         if V.contains_alias(a, b):
             alias_full.append((a, b))
